@@ -136,7 +136,7 @@ class Draw:
             eff = mask if self.use_cfg else mask & ~2
             if mask & 2 and self.use_cfg and not k.must and k.kind != "s" and k.role not in ("stats-enabled",) and not k.role.startswith("enabled") and rng.random() < 1 / 10.0:
                 # a scalar of another type in the file: yaml leaves the field alone
-                self.foreign[k.yaml] = rng.choice(['"abc"', "true", "1.5"]) if k.kind == "i" else rng.choice(["7", '"on"', "0"])
+                self.foreign[k.yaml] = rng.choice(['"abc"', "true", '"12x"']) if k.kind == "i" else rng.choice(["7", '"on"', "0"])
                 eff &= ~2
             top = "cli" if eff & 4 else "file" if eff & 2 else "env" if eff & 1 else None
             vals = {}
@@ -249,9 +249,13 @@ class Draw:
         # the file is written when it has content, and half of the time when it has none (an empty file / an absent one)
         self.write_file = bool(lines) or rng.random() < 0.5
         self.point = self.use_cfg and (bool(lines) or rng.random() < 0.7)     # else no config flag at all (/etc/vflow/vflow.conf is absent)
+        cfg_path = self.file_path
+        if not self.point and os.path.exists("/etc/vflow/vflow.conf"):
+            # this machine has a configuration file at the default path: never start without a config flag (an absent file is named)
+            self.point, cfg_path = True, os.path.join(self.wdir, "absent.conf")
         if self.point:
             sp = self.cfg_spelling
-            cfg = [sp.split("=")[0] + "=" + self.file_path] if "=" in sp else [sp.split(" ")[0], self.file_path]
+            cfg = [sp.split("=")[0] + "=" + cfg_path] if "=" in sp else [sp.split(" ")[0], cfg_path]
             groups.insert(rng.randint(0, len(groups)), cfg)
         self.argv = [t for g in groups for t in g]
 
@@ -448,6 +452,7 @@ def _settings_once(n, seed, binary, attempt):
     env.update(d.env)
     errpath = os.path.join(wdir, "stderr.log")
     errf = open(errpath, "wb")
+    t_start = time.time() - 1
     proc = subprocess.Popen([binary] + d.argv, stdout=errf, stderr=errf, cwd=wdir, env=env)
     E = d.expected
     log_candidates = sorted({v for v in list(d.prov["log-file"].values()) + [d.twice.get("log-file")] if v})
@@ -472,7 +477,7 @@ def _settings_once(n, seed, binary, attempt):
     def verdict():
         first = mism[0]
         more = (" (+%d more: %s)" % (len(mism) - 1, ", ".join(sorted({m[0] for m in mism[1:]}))[:160])) if len(mism) > 1 else ""
-        return "fail:setting %s: %s, the collector %s%s" % (first[0], d.describe(first[0]) if first[0] in KEY else "-", first[1], more)
+        return ("fail:setting %s: %s, the collector %s%s" % (first[0], d.describe(first[0]) if first[0] in KEY else "-", first[1], more)).replace(wdir, "$W")
 
     try:
         exp_udp = {bound(d.proto(p)["addr"], d.proto(p)["port"]) for p in PNAMES if d.proto(p)["enabled"]}
@@ -536,6 +541,8 @@ def _settings_once(n, seed, binary, attempt):
             if same_port:
                 left.discard(same_port[0])
                 mism.append((p + "-addr", "has bound UDP port %d to %s" % (want[1], same_port[0][0])))
+            elif PROTOS[PNAMES.index(p)][4] in logs():
+                mism.append((p + "-enabled", "has no UDP socket on port %d and reports the protocol disabled" % want[1]))
             else:
                 mism.append((p + "-port", "has no UDP socket on port %d (its UDP sockets: %s)" % (want[1], sorted(udp))))
         for a in sorted(left):
@@ -738,13 +745,19 @@ def _settings_once(n, seed, binary, attempt):
         for p in ("ipfix", "netflow9"):
             pp = d.proto(p)
             got = cache_templates(pp["cache"])
-            others = [q for q in sorted(set([v for v in d.prov[p + "-tpl-cache-file"].values()] + [str(d.twice.get(p + "-tpl-cache-file"))])) if q != pp["cache"] and os.path.exists(q)]
+            # other values some source gave for the path: a file there is evidence when it lies in this cycle's own directory, or
+            # (the default under /tmp, which any process may write: only named in the message, never the reason of a verdict) when
+            # it was written after the start
+            cands = [q for q in sorted(set([v for v in d.prov[p + "-tpl-cache-file"].values()] + [str(d.twice.get(p + "-tpl-cache-file"))])) if q != pp["cache"] and os.path.exists(q)]
+            others = [q for q in cands if q.startswith(wdir + "/")]
+            hint = [q for q in cands if q not in others and os.path.getmtime(q) >= t_start]
             if not pp["enabled"]:
                 if got is not None or others:
                     mism.append((p + "-enabled", "wrote the template cache file %s" % (others[0] if others else pp["cache"])))
                 continue
             if got is None:
-                mism.append((p + "-tpl-cache-file", ("saved its templates to %s" % others[0]) if others else "saved no template cache file there"))
+                mism.append((p + "-tpl-cache-file", ("saved its templates to %s" % others[0]) if others else "saved no template cache file there" +
+                             (" (%s was written meanwhile)" % hint[0] if hint else "")))
             elif got == "bad":
                 mism.append((p + "-tpl-cache-file", "left a file there that is not a template cache document"))
             elif probes_ok and p in tplp and not any(m[0] == p + "-udp-size" for m in mism):
@@ -882,19 +895,24 @@ def settings_cycles(pid, tier, seed):
     agg = {"provided": {s: 0 for s in SRC}, "decided_by": {s: 0 for s in ("cli", "file", "env", "default")}, "config_flag": {}, "stats": {},
            "probes_counted": 0, "cpu_cap_observed": 0}
     lat = []
+    confirmed = set()
 
     def collect(tag, fn, futs):
         for i, f in enumerate(futs):
             line, verdict, sample = f.result()
             # a finding must reproduce: the same cycle is run again, alone, up to two more times (every observation waits for
             # the collector, and the machine may be loaded); a crash is reported as it is
-            if verdict.startswith("fail") and not verdict.startswith("fail:crash"):
+            # (once a finding about a key has reproduced, further cycles that report the same key add nothing and are taken as they are)
+            cls = " ".join(verdict.split(" ")[:2])
+            if verdict.startswith("fail") and not verdict.startswith("fail:crash") and cls not in confirmed:
                 for _ in range(2):
                     line2, verdict2, sample2 = fn(i, seed, binary)
                     if not verdict2.startswith("fail"):
                         r.stats["unconfirmed-once"] = r.stats.get("unconfirmed-once", 0) + 1
                         line, verdict, sample = line2, verdict2, sample2
                         break
+                else:
+                    confirmed.add(cls)
             r.evaluations += 1
             case = "%s %d seed %d %s" % (tag, i, seed, json.dumps(sample))
             r.stats[line] = r.stats.get(line, 0) + 1
